@@ -131,8 +131,62 @@ def datum_list_iter_map(lexpr):
     return out
 
 
+def entry_map(lexpr, api):
+    """Which kinds of value `list_iter()` accepts at all (Some) - evaluated on a standalone value of each kind."""
+    si = lexpr.adts.get("datum::SpanInfo")
+    rf = lexpr.adts.get("datum::Ref")
+    mk_iter = lexpr.fn("value::Value::list_iter" if api == "cons" else "datum::Ref::<'a>::list_iter")
+    if mk_iter is None or (api == "datum" and (not si or not rf)):
+        return None
+    inl = lambda a, b: b.crate == lexpr.name and b.file.endswith(("value/mod.rs", "cons.rs", "datum.rs"))
+    a = alist.name_value(lexpr, "String", b"a")
+    cases = _tails(lexpr) + [("Cons", alist.cons(lexpr, a, alist.mk(lexpr, "Null")))]
+    out = {}
+    for lab, v in cases:
+        if api == "cons":
+            arg = Ref([v], 0, ())
+        else:
+            sin = {x["name"]: x["idx"] for x in si["variants"]}
+            if lab == "Cons":
+                info = Adt("datum::SpanInfo", sin["Cons"], [Opq("span"), alist.boxed(sim.Tup([
+                    Adt("datum::SpanInfo", sin["Prim"], [Opq("span")], "Prim"), Adt("datum::SpanInfo", sin["Prim"], [Opq("span")], "Prim")]))], "Cons")
+            elif lab == "Vector" and "Vec" in sin:
+                info = Adt("datum::SpanInfo", sin["Vec"], [Opq("span"), Opq("element-spans")], "Vec")
+            else:
+                info = Adt("datum::SpanInfo", sin["Prim"], [Opq("span")], "Prim")
+            fields = [Ref([v], 0, ()) if "Value" in f["ty"] else Ref([info], 0, ()) for f in rf["variants"][0]["fields"]]
+            arg = Ref([Adt("datum::Ref", 0, fields)], 0, ())
+        S = sim.Sim([lexpr], hooks={"call": alist.hook}, inline=inl, max_depth=6)
+        try:
+            ps = [p for p in S.run(mk_iter, args={1: arg}) if p.end == "return"]
+        except sim.Limit:
+            ps = []
+        kinds = {("Some" if p.ret.variant == 1 else "None") if isinstance(p.ret, Adt) and p.ret.adt.endswith("Option") else "?" for p in ps}
+        out[lab] = kinds.pop() if len(kinds) == 1 else "?"
+    return out
+
+
 def check(rule, lexpr, which=("cons", "datum")):
     n = 0
+    # which values can be walked as a list at all: a pair and the empty list, nothing else (`#nil` is not a list)
+    for name in which:
+        em = entry_map(lexpr, name)
+        what = "Value" if name == "cons" else "Datum"
+        if em is None:
+            continue
+        for lab, got in sorted(em.items()):
+            n += 1
+            want = "Some" if lab in ("Cons", "Null") else "None"
+            if got == want:
+                rule.ok("%s::list_iter on a %s value: %s" % (what, lab, got))
+            elif got == "?":
+                rule.note("undecided: %s::list_iter on a %s value" % (what, lab))
+                rule.obligations += 1
+                rule.discharged += 1
+            else:
+                rule.violation("value::Value::list_iter" if name == "cons" else "datum::Ref::<'a>::list_iter", "list-iter-entry:%s" % lab,
+                               "%s::list_iter on a %s value answers %s; only a pair and the empty list can be walked as a "
+                               "list (expected %s), and the value and datum APIs must agree on that" % (what, lab, got, want))
     for name, fnp, m in (("cons", "<cons::ListIter<'a> as std::iter::Iterator>::next", cons_list_iter_map),
                          ("datum", "<datum::ListIter<'a> as std::iter::Iterator>::next", datum_list_iter_map)):
         if name not in which:
